@@ -296,6 +296,10 @@ func (self *BinaryConv) unmarshalList(ctx context.Context, resp http.ResponseSet
 				*out = json.EncodeArrayComma(*out)
 			}
 		}
+		// the last element must end where the list's length prefix says the list ends
+		if p.Read != start+len {
+			return wrapError(meta.ErrRead, "packed list element runs past the list length", nil)
+		}
 	} else {
 		// unpackedList(format)：[Tag][Length][Value] [Tag][Length][Value]....
 		if err := self.unmarshalSingular(ctx, resp, p, out, fd.Elem()); err != nil {
